@@ -147,6 +147,7 @@ def run(ctx):
     ctx.sample({"script": cases[0][1], "brush": canon(res[0][0])})
     ctx.sample({"script": cases[-1][1], "brush": canon(res[-1][0])})
     err_trap_direct(ctx)
+    own_trap_family(ctx)
     ctx.cov["rule"] = ("termination paths (end, failing end, exit n, bare exit, errexit) x 12 nesting contexts x 7 handler bodies "
                        "(plain, exit n, failing under errexit, function call, subshell exit, loop) x {-c, script file, stdin}, trap set / "
                        "replaced / removed, plus seeded random control-flow programs; brush vs bash vs the trap model; ERR-trap "
@@ -154,6 +155,71 @@ def run(ctx):
     ctx.assumptions += ["ERR-trap firing positions are not in the Lean model (compared with bash directly, on programs without `!` over "
                         "compound commands, where bash's exemption depends on whether errexit was on when the `!` command started)",
                         "traps set inside the program at arbitrary points are resolved statically to the handler in force at exit"]
+
+
+
+def own_trap_family(ctx):
+    """A subshell-like environment that registers its OWN EXIT trap: `( trap h EXIT; c )`, `v=$(trap h EXIT; c)`,
+    `Q 0 | { trap h EXIT; c; }` — ways out x nestings x handler bodies.  brush vs bash vs the model of brush
+    (`subshellOwnTrap`: the handler never runs) vs the reference (`subshellOwnTrapSpec`)."""
+    ways = {"end": L(1, 0), "end_fail": L(1, 6), "exit3": ("X", 3), "exit_last": ("S", [L(1, 5), ("X", None)]),
+            "errexit": ("S", [("O", "e", True), L(1, 7), L(2, 0)]), "exit0": ("X", 0), "exit300": ("X", 300)}
+    nests = {"top": lambda c: c, "loop": lambda c: ("F", 2, c), "group": lambda c: ("Gr", c), "if": lambda c: ("I", L(51, 0), c),
+             "eval": lambda c: ("Ev", c), "func": None, "andor": lambda c: ("A", L(52, 0), [(True, c)])}
+    shapes = {"su": "( trap %s EXIT; %s ); echo \"?$?\" >&3", "cs": "v=$(trap %s EXIT; %s); echo \"?$?\" >&3",
+              "pi": "Q 0 | { trap %s EXIT; %s; }; echo \"?$?\" >&3"}
+    cases = []
+    for wn, w in ways.items():
+        for nn, nf in nests.items():
+            for hn, hb in HANDLERS:
+                if nn == "func":
+                    if hn == "calls_func":
+                        continue
+                    f0, body = ("S", [L(60, 0), w, L(61, 0)]), ("S", [("K", 0), L(64, 0)])
+                else:
+                    f0, body = L(62, 0), ("S", [L(63, 0), nf(w), L(64, 0)])
+                for sn, shape in shapes.items():
+                    ind = {"fd3": True, "in_cs": 1 if sn == "cs" else 0}
+                    h = flowgen.r_list(hb, dict(ind)).replace('echo "?$?" >&3', 'echo "T$?" >&3', 1)
+                    txt = flowgen.render(([f0], L(70, 0)), fd3=True)
+                    script = txt + shape % (flowgen.sq(h), flowgen.r_list(body, dict(ind))) + "\n"
+                    req = "C16 S " + flowgen.wire_prog(([f0, hb, body], L(70, 0)))
+                    cases.append((wn + "/" + nn + "/" + hn + "/" + sn, script, req))
+    res = lib.pmap(lambda c: lib.run_both(c[1], timeout=20), cases)
+    for i, (b, o) in enumerate(res):
+        if b["timeout"] or o["timeout"]:
+            res[i] = lib.run_both(cases[i][1], timeout=120)
+    mouts = lib.run_drv_parallel([c[2] for c in cases])
+    for (tag, script, req), (b, o), m in zip(cases, res, mouts):
+        ctx.count("own" + script, nontrivial=True, bucket="own-trap/" + tag.rsplit("/", 1)[1])
+        ctx.impl_validated += 1
+        parts = m.split(" | ")
+        cbT, coT = canon(b), canon(o)
+        cb, co = cbT.replace(",T", ",?").replace(" T", " ?"), coT.replace(",T", ",?").replace(" T", " ?")
+        case = {"script": script, "family": tag, "request": req, "brush": cbT, "bash": coT, "model": m, "brush_stderr": b["err"][-300:]}
+        if len(parts) != 2:
+            ctx.violation("driver could not evaluate the own-trap request", case, kind="correspondence")
+            continue
+        impl, spec = parts
+        if co != spec:
+            ctx.oracle_mismatch += 1
+            # (expected for the handler `…; exit` without a status: bash takes the status the trap was entered with,
+            #  the reference takes the handler's last status)
+            if "/exit_last/" not in tag:
+                ctx.notes.append("own-trap oracle_mismatch: " + tag)
+        starts_b = [t for t in cbT.split(" ", 1)[-1].split(",") if t.startswith("T")]
+        if cb == co and len(starts_b) == 1:
+            if cb != impl:
+                ctx.violation("trap model and brush disagree: brush runs the subshell's own EXIT handler, the model says it "
+                              "does not (correspondence broken; the property holds on this case)", case, kind="correspondence")
+            continue
+        if cb == impl and not starts_b:
+            # the modelled defect, and nothing else: no handler start in brush's output, brush is as its model says
+            ctx.known_or_violation("exit_trap_set_in_subshell_never_runs",
+                                   "an EXIT trap registered inside a subshell / command substitution / pipeline stage never runs", case)
+        else:
+            ctx.violation("subshell with its own EXIT trap: brush differs from bash and from its model "
+                          "(handler runs %d times)" % len(starts_b), case, kind="property")
 
 
 ERR_TRAPS = ["trap 'echo \"E$?\" >&3' ERR", "trap 'echo \"E$?\" >&3; (exit 4)' ERR", "trap 'echo \"E$?\" >&3' ERR; set -E",
